@@ -52,6 +52,54 @@ func inlineNewHelpers(p *Prog) ([]string, error) {
 		sig := obj.Type().(*types.Signature)
 		return !known[Rel(fn.Pkg.Pkg.Path())+"/"+recvName(sig)+"."+obj.Name()]
 	}
+	// a new helper that can reach itself through static calls to new helpers (directly or mutually) cannot
+	// be inlined away: every copy of its body brings a new call of it. It stays a function and is analysed
+	// on its own.
+	recursive := map[*ssa.Function]bool{}
+	{
+		callees := func(f *ssa.Function) []*ssa.Function {
+			var out []*ssa.Function
+			for _, b := range f.Blocks {
+				for _, in := range b.Instrs {
+					if ci, ok := in.(ssa.CallInstruction); ok {
+						// only calls that inlining would expand: a cycle that passes through a function of the
+						// baseline (validate -> validField -> exist -> validate) ends there
+						if g := ci.Common().StaticCallee(); g != nil && g.Blocks != nil && isNew(g) {
+							out = append(out, g)
+						}
+					}
+				}
+			}
+			return out
+		}
+		for _, f := range p.Funcs {
+			if !isNew(f) {
+				continue
+			}
+			seen := map[*ssa.Function]bool{}
+			var walk func(g *ssa.Function, d int) bool
+			walk = func(g *ssa.Function, d int) bool {
+				if d > 12 {
+					return false
+				}
+				for _, h := range callees(g) {
+					if h == f {
+						return true
+					}
+					if !seen[h] {
+						seen[h] = true
+						if walk(h, d+1) {
+							return true
+						}
+					}
+				}
+				return false
+			}
+			if walk(f, 0) {
+				recursive[f] = true
+			}
+		}
+	}
 	var notes []string
 	done := map[*ssa.Function]bool{}
 	visiting := map[*ssa.Function]bool{}
@@ -72,7 +120,7 @@ func inlineNewHelpers(p *Prog) ([]string, error) {
 						continue
 					}
 					g := call.Call.StaticCallee()
-					if !isNew(g) || visiting[g] {
+					if !isNew(g) || visiting[g] || recursive[g] {
 						continue
 					}
 					if ok, _ := ssa.PGVCanInline(call); !ok {
